@@ -215,9 +215,19 @@ func runC05(env *Env) {
 		cs := fmt.Sprintf("loop around an inclusive fork/join with both branches activated, 3 passes, script seed %d", sc.seed)
 		env.Current(cs)
 		ch, wr := sc.funcs()
-		o := RunBlk(loop, [4]bool{true, true, false, false}, ch, func(task, nth int) [4]int {
+		// even scripts: the conditions stay true in every pass; odd scripts: the first task of every pass sets them anew
+		// (second branch only, then first only, then both: not a prefix of the listed flows in the first pass)
+		patterns := [][2]int{{0, 1}, {1, 0}, {1, 1}}
+		env0 := [4]bool{true, true, false, false}
+		if s%2 == 1 {
+			env0 = [4]bool{false, true, false, false}
+		}
+		o := RunBlk(loop, env0, ch, func(task, nth int) [4]int {
 			w := wr(task, nth)
-			w[0], w[1], w[2] = -1, -1, -1 // the conditions stay true in every pass
+			w[0], w[1], w[2] = -1, -1, -1
+			if s%2 == 1 && task == 4 && nth <= len(patterns)-1 { // the last task of a pass decides the next pass
+				w[0], w[1] = patterns[nth][0], patterns[nth][1]
+			}
 			return w
 		}, 60)
 		rep.Evaluations++
